@@ -340,6 +340,68 @@ def pScore (ref est : List Rat) (thr : Rat := 1 / 5) : Py Rat := do
   validate ref est
   pure (pScoreCore ref est thr)
 
+/-! ### P-score, literally: impulse trains, `np.correlate(·, ·, "full")` and the Python slice
+
+`pScoreCore` above counts index pairs directly.  `pScoreLiteral` below does what the code does, step by step: it
+builds the two 0/1 trains, takes `np.flatnonzero` of the reference train, computes the FULL cross-correlation as a
+sliding dot product, cuts the Python slice `[middle - win : middle + win + 1]` out of it (a negative start wraps
+around, as in Python) and sums.  `MirProofs/Lemmas/BeatDef.lean` proves `pScoreLiteral = pScoreCore` for all inputs;
+the correspondence suite `beat.p_score_literal` ties both to the real code. -/
+
+/-- `train = np.zeros(N); train[idx] = 1.0` (NumPy integer-array assignment: negative indices wrap around,
+    indices outside `[-N, N)` raise `IndexError`; neither can happen on `p_score`'s path, which is proved) -/
+def impulseTrain (N : Nat) (idx : List Int) : Py (List Nat) :=
+  if idx.any (fun i => decide (i < -(N : Int)) || decide ((N : Int) ≤ i)) then .error .indexError
+  else
+    let pos := idx.map fun i => if i < 0 then i + (N : Int) else i
+    .ok ((List.range N).map fun (k : Nat) => if pos.contains (Int.ofNat k) then 1 else 0)
+
+/-- `np.flatnonzero` of a train (indices counted from `k`) -/
+def flatnonzeroNatFrom (k : Nat) : List Nat → List Int
+  | [] => []
+  | x :: t => if x = 0 then flatnonzeroNatFrom (k + 1) t else (k : Int) :: flatnonzeroNatFrom (k + 1) t
+
+/-- dot product of the overlapping part of two arrays -/
+def dot : List Nat → List Nat → Nat
+  | x :: xs, y :: ys => x * y + dot xs ys
+  | _, _ => 0
+
+/-- `np.correlate(a, v, "full")[k] = Σ_n a[n + k - (len(v) - 1)] * v[n]` (terms outside either array are absent):
+    the dot product of `v` with `a` shifted by the lag `k - (len(v) - 1)` -/
+def corrAt (a v : List Nat) (k : Nat) : Nat :=
+  let s : Int := (k : Int) - ((v.length : Int) - 1)
+  if 0 ≤ s then dot (a.drop s.toNat) v else dot a (v.drop (-s).toNat)
+
+/-- `np.correlate(a, v, "full")` for non-empty `a`, `v` (`len(a) + len(v) - 1` lags) -/
+def correlateFull (a v : List Nat) : List Nat :=
+  (List.range (a.length + v.length - 1)).map (corrAt a v)
+
+def sumNat : List Nat → Nat
+  | [] => 0
+  | a :: t => a + sumNat t
+
+/-- `np.sum(np.correlate(a, v, "full")[middle - win : middle + win + 1])` with `middle = len // 2` -/
+def corrWindowSum (a v : List Nat) (win : Int) : Nat :=
+  let corr := correlateFull a v
+  let middle : Int := ((corr.length / 2 : Nat) : Int)
+  sumNat (pySlice corr (middle - win) (middle + win + 1))
+
+/-- `p_score` after validation, step by step as the code computes it -/
+def pScoreLiteral (ref est : List Rat) (thr : Rat) : Py Rat :=
+  match ref, est with
+  | r :: r' :: rs, e :: e' :: es => do
+      let offset := min (minList e (e' :: es)) (minList r (r' :: rs))
+      let endPoint : Int := (max (maxList e (e' :: es) - offset) (maxList r (r' :: rs) - offset)).ceil
+      let N : Nat := (endPoint * 100 + 1).toNat
+      let refTrain ← impulseTrain N ((r :: r' :: rs).map fun b => ((b - offset) * 100).ceil)
+      let estTrain ← impulseTrain N ((e :: e' :: es).map fun b => ((b - offset) * 100).ceil)
+      match medianInt (diffs (flatnonzeroNatFrom 0 refTrain)) with
+      | none => pure 0
+      | some med =>
+          let win := roundHalfEven (thr * med)
+          pure ((corrWindowSum refTrain estTrain win : Rat) / ((max (es.length + 2) (rs.length + 2) : Nat) : Rat))
+  | _, _ => pure 0
+
 /-! ### Continuity -/
 
 /-- the estimated interval used for the first beat / first annotation: the next one if there is a next beat,
@@ -569,6 +631,21 @@ def handler : Handler := fun fn args =>
   | "beat.p_score", [r, e, t] => do
       let r ← r.asRats?; let e ← e.asRats?; let t ← t.asRat?
       some ((pScore r e t).map Val.rat)
+  | "beat.p_score_literal", [r, e, t] => do
+      -- the same function, computed the way the code computes it (trains, np.correlate, Python slice)
+      let r ← r.asRats?; let e ← e.asRats?; let t ← t.asRat?
+      some ((do validate r e; pScoreLiteral r e t).map Val.rat)
+  | "beat._correlate_window", [n, ri, ei, w] => do
+      -- [np.correlate(ref_train, est_train, "full")[middle - w : middle + w + 1], its sum] for the two 0/1
+      -- trains of length n with impulses at ri / ei
+      let n ← n.asNat?; let ri ← ri.asInts?; let ei ← ei.asInts?; let w ← w.asInt?
+      if n = 0 then none
+      else some (do
+        let a ← impulseTrain n ri
+        let v ← impulseTrain n ei
+        let corr := correlateFull a v
+        let middle : Int := ((corr.length / 2 : Nat) : Int)
+        pure (.list [Val.ofNats (pySlice corr (middle - w) (middle + w + 1)), Val.ofNat (corrWindowSum a v w)]))
   | "beat.continuity", [r, e, p, q] => do
       let r ← r.asRats?; let e ← e.asRats?; let p ← p.asRat?; let q ← q.asRat?
       some ((continuity r e p q).map fun c => .list [.rat c.1, .rat c.2.1, .rat c.2.2.1, .rat c.2.2.2])
